@@ -251,6 +251,9 @@ class CallbackSpec:
         if kind in ('option',):
             v, f = variant_of(c)
             return ('ok', vi, f) if v == 1 else deferr
+        if kind == 'option_unit':
+            v, f = variant_of(c)
+            return ('ok', vi, ()) if v == 1 else deferr
         if kind in ('result', 'result_unit', 'result_skip', 'skip_result', 'result_token'):
             v, f = variant_of(c)
             if v == 1:
